@@ -143,7 +143,9 @@ def run(ctx):
             problems = []
             if abs(complex(ham.e_0()) - (ident + e0_arg)) > 1e-12:
                 problems.append(f"e_0 {ham.e_0()} != identity coefficient {ident} + {e0_arg}")
-            if not isinstance(ham, sparse_hamiltonian.SparseHamiltonian):
+            if not isinstance(ham, sparse_hamiltonian.SparseHamiltonian) and nonconst:
+                # (an operator that normal-orders to a constant is returned as a zero Diagonal Hamiltonian carrying
+                # e_0: rank and quadratic() then describe the class, not a term)
                 if ham.quadratic() != (ranks <= {2}):
                     problems.append(f"quadratic() = {ham.quadratic()} but term ranks are {sorted(ranks)}")
                 if ham.rank() != (max(ranks) if ranks else 0) and not isinstance(ham, diagonal_coulomb.DiagonalCoulomb):
